@@ -3,6 +3,8 @@ package props
 import (
 	"strings"
 
+	"verif/checker/internal/gen"
+
 	"verif/checker/internal/skel"
 	"verif/checker/internal/tmpl"
 )
@@ -33,7 +35,9 @@ func init() {
 	register("C16", "other", func(c *Ctx) {
 		skeletonExplain(c, "C16 (formatter choice changes layout only; default is gofmt-canonical): (a) decision table of the formatter dispatch, extracted from the source by abstract interpretation over the formatter name: \"goimports\" → the goimports wrapper, \"noop\" → the input itself, anything else → the gofmt wrapper; (b) the gofmt wrapper returns exactly go/format.Source's result and an error otherwise, so default output = format.Source(t) and noop output = t for the same template text t; (c) in every skeleton the first line is the standard generated-code marker and only comments precede the package clause, which names the requested package.")
 		c.Run.Floor("K-HEADER/marker", 2)
-		c.RunSkeletons(SkelOpts{Rules: []string{"K-HEADER", "G-DATA/pkgname", "G-FORMAT", "G-MOCK/write-what"}, Formatters: tmpl.Formatters})
+		c.RunSkeletons(SkelOpts{Rules: []string{"K-HEADER", "G-DATA/pkgname", "G-DATA/imports", "K-IMPORTS", "G-FORMAT", "G-MOCK/write-what"}, Formatters: tmpl.Formatters})
+		// goimports yields the same import set only if the block moq emits is already exact
+		gen.CheckKinds(c.Run, c.Prog)
 		flagFlow(c, "fmt")
 		genFormat(c)
 	})
